@@ -182,6 +182,7 @@ type World struct {
 	Committed  *State
 	States     map[uint64]*State // by header txid (kept when KeepStates)
 	KeepStates bool
+	Markers    bool // write commit-begin/commit-ok markers into the op log
 
 	// running write transaction
 	Tx           *txfile.Tx
@@ -889,6 +890,9 @@ func (w *World) End(how OpKind) bool {
 	tx := w.Tx
 	var err error
 	name := how.String()
+	if w.Markers && how == OCommit {
+		w.Disk.Marker("commit-begin", int64(w.LastTxid+1))
+	}
 	if w.guard("Tx."+name, func() {
 		switch how {
 		case OCommit:
@@ -904,6 +908,13 @@ func (w *World) End(how OpKind) bool {
 	}
 	w.Tx = nil
 	committed := how == OCommit && err == nil
+	if w.Markers && how == OCommit {
+		if committed {
+			w.Disk.Marker("commit-ok", int64(w.LastTxid+1))
+		} else {
+			w.Disk.Marker("commit-fail", int64(w.LastTxid+1))
+		}
+	}
 	if err != nil {
 		if how != OCommit {
 			w.violate("abort-error", "abort-error:"+kindOf(err), "%s failed: %v", name, err)
